@@ -80,9 +80,18 @@ class Lock:
 
 
 # ----------------------------------------------------------------------------- stage T
-def stage_translator():
+def stage_translator(pid):
     rc, out = run([sys.executable, os.path.join(VERIF, "tools", "gen_tables.py")], 120)
-    return rc == 0, out
+    if rc != 0:
+        return False, out
+    try:
+        st = json.load(open(os.path.join(WORK, "translator_status.json")))
+    except (OSError, ValueError):
+        st = {}
+    mine = {k: v for k, v in st.items() if k.lower().startswith(pid.lower() + "_")}
+    if mine:
+        return False, json.dumps(mine)
+    return True, out
 
 
 # ----------------------------------------------------------------------------- stage P
@@ -313,7 +322,7 @@ def main():
 
     broken = []          # (stage, what)
     # T
-    ok, out = stage_translator()
+    ok, out = stage_translator(pid)
     if not ok:
         broken.append(("translator", "tools/gen_tables.py no longer recognises a source fragment: " + out[-1500:]))
     # P
